@@ -115,7 +115,12 @@ def scenario_coq(sc, idx, use_gen):
         out.append("Definition %s_%s_inputs : list pass_input := map (fun s : load_outcome * N => let '(lo, pk) := s in "
                    "{| pi_load := lo; pi_reports := fun e => filter (fun r => %s %s_enable %s_disable (ri_group (rd_rule_info r))) (%s_direct e pk); "
                    "pi_go_ok := %s |}) %s_steps." % (n, tag, filt, n, n, n, go_ok, n))
-        out.append("Definition %s_%s_run := run_passes_st %s %s (%s %s_e) g_init %s_%s_inputs." % (n, tag, prep, cb, pl, n, n, tag))
+        if fl.get("force"):
+            # ForceNewEngine: the cache is bypassed and left untouched, every pass is a first pass
+            out.append("Definition %s_%s_run := map (fun p => (snd (run_pass %s %s (%s %s_e) g_init p), g_init)) %s_%s_inputs." % (
+                n, tag, prep, cb, pl, n, n, tag))
+        else:
+            out.append("Definition %s_%s_run := run_passes_st %s %s (%s %s_e) g_init %s_%s_inputs." % (n, tag, prep, cb, pl, n, n, tag))
         out.append("Definition %s_%s_bad := (mismatches output_eqb (map fst %s_%s_run) %s_observed, "
                    "mismatches (fun (a o : bool * bool * bool) => let '(a1, a2, a3) := a in let '(he, er, po) := o in "
                    "Bool.eqb a1 he && Bool.eqb a2 er && Bool.eqb a3 po) "
@@ -327,16 +332,17 @@ def run(c):
             # load accounting that does not go through the model
             v0 = sc["_loaded_version"]
             first_ok = [st for st in steps if st["has_engine"]]
-            if v0 and first_ok and any(not st["same_engine"] for st in steps if st["has_engine"]):
+            if v0 and first_ok and not fl.get("force") and any(not st["same_engine"] for st in steps if st["has_engine"]):
                 c.fail("oracle", "the global engine object changed after the first load", input=inp,
                        expected="one engine per process", observed=[st["same_engine"] for st in steps])
-            if fl["debug"] and v0:
+            force = bool(fl.get("force"))
+            if fl["debug"] and v0 and not force:
                 want = len(sc["all_groups"].get(str(v0)) or [])
                 if sc["debug_lines"] != want:
                     c.fail("oracle", "GroupFilter ran %d times for %d groups: the rule set was not loaded exactly once" % (sc["debug_lines"], want),
                            input=inp, expected=want, observed=sc["debug_lines"])
             nerr = sum(1 for st in steps if st["err"] and not st["err"].startswith(GOVER))
-            if nerr > 1:
+            if nerr > 1 and not force:
                 c.fail("oracle", "a load failure was reported %d times" % nerr, input=inp, expected="at most once per process", observed=nerr)
             if any(st.get("panic") for st in steps):
                 c.fail("oracle", "analyzer run panicked", input=inp, observed=[st.get("panic") for st in steps if st.get("panic")][:2])
